@@ -28,6 +28,7 @@ def value_kinds():
         "opcode": [opc.OpCode("A", 1, {}), opc.OpCode("B", 2, {}), o, o],
         "mixed": [0, "", {"k": ()}, {"k": ()}],
         "eqobj": [EqObj(1), EqObj(2), EqObj(3), EqObj(3)],
+        "falsy": [None, "", 0, 0.0],
     }
 
 
